@@ -62,6 +62,7 @@ type sumRec struct {
 	Fails     []failRec      `json:"fails"`
 	Other     map[string]int `json:"other,omitempty"` // informational: non-nil run-time panics of mutants
 	Skipped   int            `json:"skipped,omitempty"`
+	Undecided []string       `json:"undecided,omitempty"`
 	CPUOk     float64        `json:"cpu_ok"`   // CPU seconds spent on conforming cases
 	CPUFail   float64        `json:"cpu_fail"` // CPU seconds spent on failing cases (incl. reduction / attribution)
 	Sample    *kase          `json:"sample,omitempty"`
@@ -92,6 +93,13 @@ func (a *acc) one(id string, fam string, mode int, src string, run bool, note st
 	}
 	a.sum.N++
 	a.sum.Outcomes[v.Outcome]++
+	if v.Outcome == "undecided-over-cap" && len(a.sum.Undecided) < 20 {
+		u := note
+		if u == "" {
+			u = clip(src)
+		}
+		a.sum.Undecided = append(a.sum.Undecided, fmt.Sprintf("%s (mode %d)", u, mode))
+	}
 	if v.Outcome == "run:other-panic" {
 		a.sum.Other[v.Detail]++
 	}
@@ -698,7 +706,7 @@ func main() {
 	var maxSqSrc, maxLinSrc string
 	skipped := 0
 	samples := map[string]bool{}
-	var watchdog []string
+	var watchdog, undecided []string
 	cpuOk, cpuFail := map[string]float64{}, map[string]float64{}
 	onRec := func(si int, rb json.RawMessage) {
 		var r sumRec
@@ -709,6 +717,7 @@ func main() {
 		cpuOk[r.Fam] += r.CPUOk
 		cpuFail[r.Fam] += r.CPUFail
 		skipped += r.Skipped
+		undecided = append(undecided, r.Undecided...)
 		for o, n := range r.Outcomes {
 			outcomes[o] += int64(n)
 		}
@@ -809,6 +818,8 @@ func main() {
 	c.Set("max_fuel_per_byte", fmt.Sprintf("%.1f on %q", maxLin, maxLinSrc))
 	c.Set("other_runtime_panics_of_mutants_not_judged_here", other)
 	c.Set("worker_deaths", st1.Deaths+st2.Deaths)
+	sort.Strings(undecided)
+	c.Set("undecided_inputs", undecided)
 	c.Set("cpu_s_conforming_cases", cpuOk)
 	c.Set("cpu_s_failing_cases", cpuFail)
 	c.Assume("only the enumerated finite families are decided; byte strings longer than the bounds that are neither corpus mutants nor token strings, and inputs > 8 MB, are outside")
